@@ -82,6 +82,14 @@ class Acc(object):
             self.violations.append(
                 {'mechanism': mechanism, 'detail': detail, 'case': case})
 
+    def too_many(self, limit=25):
+        """True once a shard has collected plenty of witnesses: on a broken tree the remaining cases would
+        mostly add waiting time (timeouts inside the subject), not information."""
+        if sum(self.viol_counts.values()) >= limit:
+            self.counters['stopped_early_after_many_violations'] = 1
+            return True
+        return False
+
     def inconc(self, reason):
         if len(self.inconclusive) < 50:
             self.inconclusive.append(reason)
